@@ -88,6 +88,8 @@ def observe(lib, cases):
         h = F.Harnessed(lib, c['env'])
         texts = [text_of(c[m], lv) for m in ('min', 'full', 'red')]
         outs = [outcome(h.p.parse(t)) for t in texts]
+        if len(obs) % 3 == 2:      # the same three texts once more on the same parser: what is judged is the second evaluation
+            outs = [outcome(h.p.parse(t)) for t in texts]
         obs.append({'id': len(obs) + 1, 'ast': c['ast'], 'env': c['env'], 'outs': outs, 'formulas': texts,
                     'in': texts[0]})
     return obs
